@@ -458,6 +458,12 @@ func (b *baseScreen) ChannelEvents(ch chan<- Event, quit <-chan struct{}) {
 }
 
 func (b *baseScreen) PollEvent() Event {
+	// a finished screen delivers nothing more, even if events are still queued
+	select {
+	case <-b.StopQ():
+		return nil
+	default:
+	}
 	select {
 	case <-b.StopQ():
 		return nil
